@@ -14,7 +14,7 @@ pyrepseq = boot.import_pyrepseq()
 PROPERTY = "C16"
 RULE = ("frequency-of-frequency vectors of length 1..8 with entries 0..10^6 (f2 = 0 and f2 > 0 both common) as lists and int "
         "arrays, m in 1..20; collections as lists, tuples, sets, frozensets, Series (arbitrary index), with duplicates, with "
-        "missing values (None / NaN) anywhere for overlap / overlap_coefficient and inside Series only for jaccard_index, "
+        "missing values (None, np.nan, fresh float('nan') / np.float64('nan') objects, pd.NA) anywhere for overlap / overlap_coefficient and inside Series only for jaccard_index, "
         "non-empty for the ratio forms. Oracle: closed forms in exact Fractions (chao1, chao2, Chao variance "
         "f2(r^2/2 + r^3 + r^4/4), NaN when f2 is zero or absent, no exception), estimate >= S_obs whenever defined; Python set "
         "algebra after NA removal; symmetry, invariance under duplication and reordering. Tolerance 1e-12 relative. "
@@ -69,8 +69,24 @@ def is_na(x):
     return x is None or (isinstance(x, float) and math.isnan(x))
 
 
-def materialise(elems, how):
-    vals = [None if e == "<NA>" else e for e in elems]
+def na_value(kind):
+    # every call returns a FRESH object where the representation allows it (NaN is not equal to itself, and two NaN
+    # objects are only "the same missing value" to code that tests for missingness, not identity)
+    if kind == "none":
+        return None
+    if kind == "np.nan":
+        return np.nan
+    if kind == "float_nan":
+        return float("nan")
+    if kind == "np.float64_nan":
+        return np.float64("nan")
+    if kind == "pd.NA":
+        return pd.NA
+    raise ValueError(kind)
+
+
+def materialise(elems, how, na="none"):
+    vals = [na_value(na) if e == "<NA>" else e for e in elems]
     if how == "list":
         return list(vals)
     if how == "tuple":
@@ -82,7 +98,7 @@ def materialise(elems, how):
     if how == "series":
         return pd.Series(vals, index=[f"k{i}" for i in range(len(vals))], dtype=object)
     if how == "series_nan":
-        return pd.Series([np.nan if v is None else v for v in vals], index=list(range(len(vals)))[::-1], dtype=object)
+        return pd.Series([np.nan if (v is None) else v for v in vals], index=list(range(len(vals)))[::-1], dtype=object)
     if how == "ndarray":
         return np.array(vals, dtype=object)
     raise ValueError(how)
@@ -97,7 +113,8 @@ def check_overlap(case, rec):
     inter = sa & sb
     nt = bool(inter) and inter != sa and inter != sb
     has_na = "<NA>" in A or "<NA>" in B
-    rec.note(case, nt, [fn, ha, hb, "na" if has_na else "no_na"])
+    na = case.get("na", "none")
+    rec.note(case, nt, [fn, ha, hb, f"na={na}" if has_na else "no_na"])
     f = getattr(pyrepseq, fn)
     if fn == "jaccard_index":
         want = Fraction(len(inter), len(sa | sb))
@@ -105,15 +122,15 @@ def check_overlap(case, rec):
         want = Fraction(len(inter))
     else:
         want = Fraction(len(inter), min(len(sa), len(sb)))
-    got = call(fn, f, materialise(A, ha), materialise(B, hb))
+    got = call(fn, f, materialise(A, ha, na), materialise(B, hb, na))
     if not close(got, want, 1e-12):
         raise Violation(fn, f"{fn}({ha} {A}, {hb} {B}) = {got!r}, expected {want}")
-    got_s = call(fn, f, materialise(B, hb), materialise(A, ha))
+    got_s = call(fn, f, materialise(B, hb, na), materialise(A, ha, na))
     if not close(got_s, want, 1e-12):
         raise Violation(f"{fn}-symmetry", f"{fn}(B, A) = {got_s!r}, expected {want}")
     if ha in ("list", "tuple", "series", "series_nan", "ndarray"):
         dup = list(A) + list(A)[::-1]
-        got_d = call(fn, f, materialise(dup, ha), materialise(B, hb))
+        got_d = call(fn, f, materialise(dup, ha, na), materialise(B, hb, na))
         if not close(got_d, want, 1e-12):
             raise Violation(f"{fn}-duplicates", f"duplicated/reordered A gives {got_d!r}, expected {want}")
 
@@ -163,7 +180,12 @@ def overlap_case(draw, tier="quick"):
             A = A[:1] + ["<NA>"] + A[1:]
             if draw(st.booleans()):
                 B = B + ["<NA>"]
-    return {"fn": fn, "A": A, "B": B, "as_a": ha, "as_b": hb}
+    case = {"fn": fn, "A": A, "B": B, "as_a": ha, "as_b": hb}
+    if "<NA>" in A or "<NA>" in B:
+        case["na"] = draw(st.sampled_from(["none", "np.nan", "float_nan", "np.float64_nan", "pd.NA"]))
+        if "<NA>" in A and draw(st.booleans()):
+            case["A"] = A + ["<NA>"]      # the same kind of missing value twice in one collection
+    return case
 
 
 SUBS = [
